@@ -226,6 +226,10 @@ def gen_seq_op(r, root, foreign):
     return {'k': 'auto', 'i': r.randrange(len(nodes))}
 
 
+class SelectionExceeded(Exception):
+    pass
+
+
 def later_vs_parse(root):
     """Everything released, then attributed again by auto_claim_comments() on the document as it stands: the same
     attribution as parsing the printed text (the tokens an edit wrote are the tokens the lexer would produce)."""
@@ -284,7 +288,14 @@ def apply_seq_op(root, op, foreign, walk=None, replay=None):
             arg = None
             if op['set'] is not None:
                 arg = [foreign if i == -1 else comments[i] for i in op['set'] if i == -1 or i < len(comments)]
+            flags = [(t, bool(t.claimed)) for t in comments]
             r = getattr(w, op['m'])(arg)
+            if arg is not None:
+                # a call that names its comments (the empty selection included) changes the ownership of those only
+                other = [t for t, c in flags if bool(t.claimed) != c and not any(t is a for a in arg)]
+                if other:
+                    raise SelectionExceeded(f'{op["m"]} with {len(arg)} named comment(s) changed the ownership of {len(other)} comment(s) it did not name '
+                                            f'(returned {len(r)})')
             return f'n{min(len(r), 3)}'
         if op['k'] == 'spacing':
             m = _mixins(root)[op['i']]
@@ -309,6 +320,8 @@ def apply_seq_op(root, op, foreign, walk=None, replay=None):
         else:
             nodes[op['i']].auto_claim_comments()
         return 'ok'
+    except SelectionExceeded as e:
+        return 'SELECTION-EXCEEDED: ' + str(e)
     except ValueError as e:
         return edits.exc_tag(e)
     except IndexError:
@@ -321,7 +334,9 @@ def run_sequence(text, auto, ops):
     foreign = P().parse('; foreign\n', models.File, auto_claim_comments=False)
     fc = [t for t in foreign.token_store if isinstance(t, models.BlockComment)][0]
     for n, op in enumerate(ops):
-        apply_seq_op(root, op, fc)
+        out = apply_seq_op(root, op, fc)
+        if isinstance(out, str) and out.startswith('SELECTION-EXCEEDED'):
+            return [('selection-exceeded', f'after step {n} ({op}): {out}')]
         bad = commentsx.check_census(root)
         if any(o['k'] == 'spacing' for o in ops[:n + 1]):
             bad = [x for x in bad if 'not-adjacent' not in x[0]]    # a blank line the user put there by hand
@@ -355,11 +370,14 @@ def sequences(ctx, ndocs, nops, walk=None):
             before = sum(1 for t in root.token_store if isinstance(t, models.BlockComment) and t.claimed)
             out = apply_seq_op(root, op, fc, walk, {'kind': 'sequence', 'text': text, 'auto': auto, 'ops': list(ops)})
             after = sum(1 for t in root.token_store if isinstance(t, models.BlockComment) and t.claimed)
-            ctx.count(f'seq:{op["k"]}:{op.get("m", "auto_claim_comments")}:{out}')
+            ctx.count(f'seq:{op["k"]}:{op.get("m", "auto_claim_comments")}:{str(out)[:18]}')
             ctx.case(('seq', op['k'], op.get('m'), out, min(before, 4), min(after, 4), op.get('set') is not None) if before != after or out not in ('none', 'n0', 'ok') else None)
             bad = commentsx.check_census(root)
             if any(o['k'] == 'spacing' for o in ops):
                 bad = [x for x in bad if 'not-adjacent' not in x[0]]    # a blank line the user put there by hand
+            if isinstance(out, str) and out.startswith('SELECTION-EXCEEDED'):
+                bad = [('selection-exceeded', out)]
+                out = 'selection-exceeded'
             if bad:
                 sig, what = bad[0]
                 _fail(ctx, sig, f'{what} after {op}', {'kind': 'sequence', 'text': text, 'auto': auto, 'ops': _shrink(text, auto, ops, sig)})
